@@ -153,6 +153,18 @@ def ev(case, rec):
                     continue
                 rec.nontriv((z, e, n, h, direction))
                 rec.state((direction,) + tuple(float(v).hex() for v in r[:4]))
+                # the same coordinate in other numeric forms (numpy scalars; ints where integral; zone as float)
+                fa = [np.int64(z), np.float64(e), np.float64(n)] + ([] if h is None else [np.float64(h)])
+                stf, rf = rec.call(fn, *fa)
+                if stf != 'ok' or tuple(rf[:4]) != tuple(r[:4]):
+                    rec.fail('the transformation gives a different result for numpy-scalar arguments', site='transform:mga:input-form',
+                             observed=rf, expected=list(r[:4]), case=one, coords=co)
+                if float(e).is_integer() and float(n).is_integer() and (h is None or float(h).is_integer()):
+                    fa = [float(z), int(e), int(n)] + ([] if h is None else [int(h)])
+                    stf, rf = rec.call(fn, *fa)
+                    if stf != 'ok' or tuple(rf[:4]) != tuple(r[:4]):
+                        rec.fail('the transformation gives a different result for integer arguments (a height of int 0 is a height)',
+                                 site='transform:mga:input-form', observed=rf, expected=list(r[:4]), case=one, coords=co)
                 o = oracle_transform(direction, z, e, n, h, None)
                 bad = False
                 if r[4] is not None:
